@@ -58,7 +58,7 @@ def r2_graph_lockstep(ctx):
     rets = g.stmt_nodes(ast.Return)
     cached = [r for r in rets if any(c == f"({i})<=(self._buffer_index)" and p for t, lab in g.guards(r) for c, p in edge_facts(t, lab))]
     ok = len(cached) == 1 and u(cached[0].ast.value) == "self._current_buffer"
-    ctx.ob(f.where, "a repeated request for an already evaluated index is served from the current buffer (inputs are not advanced twice)", ok, "", key="C11-R2|cached")
+    ctx.ob(f.where, "a repeated request for an already evaluated index is served from the current buffer (inputs are not advanced twice)", ok, "", key="C11-R2|cached", definite=True)
     asserts = [n for n in g.nodes if n.kind == "stmt" and isinstance(n.ast, ast.Assert)]
     ok = any(sym.canon(a.ast.test) == sym.canon(sym.parse_expr(f"self._buffer_index in ({i}, {i} - 1)")) for a in asserts)
     ctx.ob(f.where, "a request that would skip a buffer or go backwards by more than one fails", ok, "", key="C11-R2|assert")
@@ -125,7 +125,7 @@ def r3_reducer_pairing(ctx):
             raise Unrecognised(f"{jn.where}: joint post-processing has a form the checker cannot read")
         ok = False
         detail = "post-processing of one member depends on the other members: " + gated[0].split("\n")[0]
-    ctx.ob(jn.where, "joint reductions: each member's post-processing is applied to its own component, independently of the others", ok, detail, key="C11-R3|join-post")
+    ctx.ob(jn.where, "joint reductions: each member's post-processing is applied to its own component, independently of the others", ok, detail, key="C11-R3|join-post", definite=True)
     ok = "binary_func" in env and isinstance(env["binary_func"], ast.Lambda) and sym.canon(env["binary_func"].body) == sym.canon(sym.parse_expr(
         f"tuple(node._binary_func(e1, e2) for node, e1, e2 in zip({rn}, t1, t2))"))
     ctx.ob(jn.where, "joint reductions: component k is combined with member k's combiner", ok, "", key="C11-R3|join-binary")
